@@ -327,6 +327,12 @@ func (vc *FuncVC) header() string {
 
 // script builds the incremental script; upTo < 0 means all obligations.
 func (vc *FuncVC) script(only *Obligation, withModel bool) string {
+	return vc.scriptShard(only, withModel, 0, 1)
+}
+
+// scriptShard: like script, but check-sat is issued only for obligations whose index is congruent
+// to shard modulo nshards (all obligations are still assumed after their position).
+func (vc *FuncVC) scriptShard(only *Obligation, withModel bool, shard, nshards int) string {
 	var b strings.Builder
 	b.WriteString(vc.header())
 	for _, it := range vc.items {
@@ -336,7 +342,7 @@ func (vc *FuncVC) script(only *Obligation, withModel bool) string {
 			continue
 		}
 		ob := it.ob
-		if only == nil || only == ob {
+		if (only == nil && ob.idx%nshards == shard) || only == ob {
 			fmt.Fprintf(&b, "(echo \"@OB %d\")\n(push 1)\n(assert %s)\n", ob.idx, ob.pc.S)
 			if ob.Expect == "unsat" {
 				fmt.Fprintf(&b, "(assert (not %s))\n", ob.f.S)
@@ -430,9 +436,44 @@ func (vc *FuncVC) solve(tmpdir string) {
 		os.WriteFile(filepath.Join(vc.eng.dumpDir, tag+".smt2"), []byte(full), 0644)
 	}
 	tmo := vc.eng.timeoutS
-	// first pass: z3-new on the whole incremental script
-	out, secs := runSolver(solvers[0], full, tmo, time.Duration(tmo*len(vc.obls)+10)*time.Second, tmpdir, tag)
-	res := parseResults(out)
+	// first pass: z3-new on the whole incremental script (sharded over several processes when the
+	// function has many obligations: each shard asserts everything but checks only its share)
+	nsh := len(vc.obls) / 6
+	if nsh > 12 {
+		nsh = 12
+	}
+	if nsh < 1 {
+		nsh = 1
+	}
+	res := map[int]string{}
+	var out string
+	var secs float64
+	if nsh == 1 {
+		out, secs = runSolver(solvers[0], full, tmo, time.Duration(tmo*len(vc.obls)+10)*time.Second, tmpdir, tag)
+		res = parseResults(out)
+	} else {
+		var wgs sync.WaitGroup
+		var mus sync.Mutex
+		t0 := time.Now()
+		for sh := 0; sh < nsh; sh++ {
+			sh := sh
+			wgs.Add(1)
+			go func() {
+				defer wgs.Done()
+				sc := vc.scriptShard(nil, false, sh, nsh)
+				o, _ := runSolver(solvers[0], sc, tmo, time.Duration(tmo*(len(vc.obls)/nsh+1)+10)*time.Second, tmpdir, fmt.Sprintf("%s_sh%d", tag, sh))
+				r := parseResults(o)
+				mus.Lock()
+				for k, v := range r {
+					res[k] = v
+				}
+				out += o
+				mus.Unlock()
+			}()
+		}
+		wgs.Wait()
+		secs = time.Since(t0).Seconds()
+	}
 	per := secs / float64(len(vc.obls))
 	var pending []*Obligation
 	for _, ob := range vc.obls {
